@@ -68,6 +68,8 @@ def explore_c20(rng, tier, res, deep=False):
                 kind = "ctl"  # always some of these, whatever the seed
             if 28 <= i < 44:
                 kind = "strstep"
+            if 44 <= i < 56:
+                kind = "rawtext"
             q = walk_query(rng, doc, g, filters=True) if rng.random() < 0.5 else g.query()
             FALSY = [{}, [], "", 0, False, None, 0.0, -0.0]
             if i < 2 * len(FALSY):
@@ -85,6 +87,14 @@ def explore_c20(rng, tier, res, deep=False):
                         ("$[0]", "a"), ("$.name[-1]", {"name": "abc"}), ("$.l[1][0]", {"l": ["x", "yz"]}), ("$[?@[0] == 'a']", ["abc", ["a"]]), ("$.name.length", {"name": "abc"}),
                         ("$[1][-1]", [0, "xyz"])]
                 q, doc = pool[(i - 28) % len(pool)]
+            if kind == "rawtext":
+                # the query text reaches compile() exactly as given (inline or from a file): names and literals that a
+                # normalisation, a case mapping or a re-encoding would change, documents holding both forms
+                doc = {"cafe\u0301": "decomposed", "caf\u00e9": "composed", "\u212b": 1, "\u00c5": 2, "\ufb01": 3, "fi": 4, "\u1100\u1161": 5, "\uac00": 6, "\u03a3": 7, "\u03c3": 8,
+                       "l": ["e\u0301", "\u00e9", "\u212b", "\u00c5", "\u2126", "\u03a9"], "\uff21": 9, "A": 10, "a\u00a0b": 11, "a b": 12}
+                pool = ["$['cafe\u0301']", "$['caf\u00e9']", "$.\u212b", "$.\u00c5", "$['\ufb01', 'fi']", "$['\u1100\u1161']", "$.l[?@ == 'e\u0301']", "$.l[?@ == '\u2126']", "$.\u03a3",
+                        "$['\uff21']", "$['a\u00a0b']", "$.l[?@ != '\u00e9']"]
+                q = pool[(i - 44) % len(pool)]
             if kind == "spaced":
                 # blank space INSIDE string literals (runs of spaces, no-break and other Unicode spaces): the text of a
                 # query — also one read from a file — is taken as it is, only stripped at its ends
@@ -131,7 +141,7 @@ def explore_c20(rng, tier, res, deep=False):
             debug = rng.random() < 0.2
             pretty = rng.random() < 0.4
             use_rfile = rng.random() < (0.7 if kind == "spaced" else 0.3)
-            if 16 <= i < 44:
+            if 16 <= i < 56:
                 debug, use_rfile = False, i % 4 == 3  # the fixed control-character family: inline mostly, no --debug
             use_stdin = rng.random() < 0.3 and kind != "badbytes"
             use_ofile = rng.random() < 0.4
